@@ -9,7 +9,18 @@ import (
 	"golang.org/x/tools/go/ssa"
 )
 
+// frameInvApplies: the implicit loop invariant "only what the modifies clause of the function under contract allows has
+// changed since the function was entered" is used for the loops of that function and for the loops of helpers without a
+// contract that are inlined into it (their effects are effects of the function).
+func (fr *Frame) frameInvApplies() bool {
+	r := fr.run
+	return (fr.top || fr.contract == nil) && r.contract != nil && r.entryEnv != nil
+}
+
 func (fr *Frame) loopSpec(li *loopInfo) *LoopSpec {
+	if fr.run.loopRemap != nil && (fr.top || fr.contract == nil) {
+		return fr.run.loopRemap[li.header]
+	}
 	if fr.contract == nil {
 		return nil
 	}
@@ -19,6 +30,21 @@ func (fr *Frame) loopSpec(li *loopInfo) *LoopSpec {
 func (fr *Frame) loopEnv(li *loopInfo, st *State) *SpecEnv {
 	r := fr.run
 	env := &SpecEnv{run: r, pkg: fr.fn.Pkg.Pkg, cur: st, old: fr.entry, loopPre: fr.loopPre[li.header], vars: fr.paramSVs(), frame: fr, fc: fr.contract}
+	if r.loopRemap != nil && !fr.top && r.entryEnv != nil {
+		// loop clauses written for the function under contract, now sitting on a loop of an inlined helper (remap.go): names the
+		// helper does not have denote the function's parameters, and old() is the function's entry state
+		vars := map[string]SV{}
+		for k, v := range r.entryEnv.vars {
+			vars[k] = v
+		}
+		for k, v := range fr.paramSVs() {
+			vars[k] = v
+		}
+		env.vars = vars
+		env.old = r.entryState
+		env.pkg = r.top.Pkg.Pkg
+		env.fc = r.contract
+	}
 	// range-over-map loop: expose the visited set
 	find := func(l *loopInfo) {
 		for _, ins := range l.header.Instrs {
@@ -258,8 +284,11 @@ func (fr *Frame) probeLoop(li *loopInfo, cur *State) (locals []*ssa.Alloc, keys 
 func (fr *Frame) enterLoop(li *loopInfo, cur *State) *State {
 	r := fr.run
 	spec := fr.loopSpec(li)
-	if spec == nil && r.probing == 0 {
-		unsupported("loop %d of %s has no invariant", li.ord, fr.fn)
+	if spec == nil {
+		// no invariant written for this loop (typically a loop in a helper without a contract that is inlined here): it is
+		// cut with the invariant `true` plus the automatic parts (frame inference, accumulator ownership). That is sound;
+		// if the proof needs more about the loop, the obligation that needs it fails.
+		spec = &LoopSpec{}
 	}
 	fr.loopPre[li.header] = cur.clone()
 	locals, keys := fr.probeLoop(li, cur)
@@ -274,7 +303,7 @@ func (fr *Frame) enterLoop(li *loopInfo, cur *State) *State {
 			r.oblige(cur, "loop-init", fmt.Sprintf("%s#loop%d:init:%s", name, li.ord, inv.Label), mergeTags(inv.Tags, fr.safetyTags()), g, inv.Src, true, li.header.Instrs[0].Pos())
 		}
 	}
-	if r.probing == 0 && fr.top && r.contract != nil && r.entryEnv != nil {
+	if r.probing == 0 && fr.frameInvApplies() {
 		// init case of the implicit frame invariant
 		items := r.topFrameItems(r.entryEnv, r.entryState)
 		for _, k := range keys {
@@ -451,7 +480,7 @@ func (fr *Frame) enterLoop(li *loopInfo, cur *State) *State {
 			li.autoFramed[k] = true
 			continue
 		}
-		if fr.top && r.contract != nil && r.entryEnv != nil {
+		if fr.frameInvApplies() {
 			// the loop may only change what the function's modifies clause allows (checked at every back edge)
 			items := r.topFrameItems(r.entryEnv, r.entryState)
 			if g, ok := r.frameGoal(items, r.entryState, st, k, Term{"fx", "Int"}); ok {
@@ -482,7 +511,7 @@ func (fr *Frame) checkLoopStep(li *loopInfo, st *State) {
 	}
 	spec := fr.loopSpec(li)
 	if spec == nil {
-		return
+		spec = &LoopSpec{} // invariant `true`; the implicit frame invariant below is still proved
 	}
 	name := r.funcLabel()
 	if !fr.top {
@@ -516,7 +545,7 @@ func (fr *Frame) checkLoopStep(li *loopInfo, st *State) {
 		}
 	}
 	// implicit frame invariant (see enterLoop)
-	if fr.top && r.contract != nil && r.entryEnv != nil {
+	if fr.frameInvApplies() {
 		items := r.topFrameItems(r.entryEnv, r.entryState)
 		for _, k := range li.modKeys {
 			if frameKeySkipped(k) || li.freshOnly[k] || li.autoFramed[k] || !(strings.HasPrefix(k, "H|") || strings.HasPrefix(k, "A|") || strings.HasPrefix(k, "M")) {
